@@ -147,6 +147,8 @@ func HasResultsCache(t testing.TB, res, wants []*client.OpResult, opt ...resultO
 	byNHID := map[uint64]*client.OpResult{}
 	byNHGID := map[uint64]*client.OpResult{}
 	byIPv4Prefix := map[string]*client.OpResult{}
+	byIPv6Prefix := map[string]*client.OpResult{}
+	byMPLSLabel := map[uint64]*client.OpResult{}
 
 	for _, r := range res {
 		byOpID[r.OperationID] = r
@@ -158,6 +160,10 @@ func HasResultsCache(t testing.TB, res, wants []*client.OpResult, opt ...resultO
 				byNHID[r.Details.NextHopIndex] = r
 			case r.Details.IPv4Prefix != "":
 				byIPv4Prefix[r.Details.IPv4Prefix] = r
+			case r.Details.IPv6Prefix != "":
+				byIPv6Prefix[r.Details.IPv6Prefix] = r
+			case r.Details.MPLSLabel != 0:
+				byMPLSLabel[r.Details.MPLSLabel] = r
 			}
 		}
 	}
@@ -182,6 +188,14 @@ func HasResultsCache(t testing.TB, res, wants []*client.OpResult, opt ...resultO
 			HasResult(t, []*client.OpResult{byNHID[want.Details.NextHopIndex]}, want, opt...)
 		case want.Details.IPv4Prefix != "":
 			HasResult(t, []*client.OpResult{byIPv4Prefix[want.Details.IPv4Prefix]}, want, opt...)
+		case want.Details.IPv6Prefix != "":
+			HasResult(t, []*client.OpResult{byIPv6Prefix[want.Details.IPv6Prefix]}, want, opt...)
+		case want.Details.MPLSLabel != 0:
+			HasResult(t, []*client.OpResult{byMPLSLabel[want.Details.MPLSLabel]}, want, opt...)
+		default:
+			// The wanted result names nothing that the caches are keyed by, so
+			// it is looked for amongst all of the results.
+			HasResult(t, res, want, opt...)
 		}
 	}
 }
